@@ -1188,6 +1188,8 @@ def main(outfile):
     import py2lean_sim
     py2lean_sim.main_simulate(os.path.join(os.path.dirname(outfile), 'TranslatedSimulate.lean'),
                               lambda: fn_ast(simulator.Circuit._simulate), write_if_changed)
+    import py2lean_timeunits                                     # separate module: utils/timeunits.py (C19)
+    py2lean_timeunits.main_timeunits(os.path.join(os.path.dirname(outfile), 'TranslatedTimeUnits.lean'), write_if_changed)
 
 
 if __name__ == '__main__':
